@@ -23,7 +23,6 @@
 #include "c14_common.h"
 #include "hdfalloc.c"          /* the real HDmemfill */
 #define H4V_NR_N 8 /* Hnewref is not reached from this unit */
-#include "hfiledd_dir_ghost.h" /* ghosts named by loops/hfiledd_dir.loops (same real file) */
 #include "hfiledd.c"
 
 #ifndef C14_NDDS
